@@ -284,6 +284,19 @@ TEXT_ADD10 = {
  "C15": " Reference points are not truncated to milliseconds.",
  "C16": " 999.6 ms is not written as 1000.",
 }
+TECH_ADD11 = {
+ "C03": "a count multiplied by an integer quotient returned by a library function is a scaled quotient",
+ "C04": "the table a Format line is written into is made empty (no filled map reaches it, flag-correlated paths excepted)",
+ "C15": "the reference times are followed into the helpers they are passed to",
+ "C05": "ReadFromSTL does not assign the GSI offset it subtracts",
+ "C06": "M/29 is recorded whether or not a page is being received",
+ "C14": "no package-level slice or map stored into the model",
+ "C20": "no package-level slice or map stored into the model",
+}
+TEXT_ADD11 = {
+ "C03": " Frame counts are not multiplied by a frame length already rounded to whole nanoseconds.",
+ "C04": " A Format line naming fewer columns than the standard order is honoured.",
+}
 for k, v in TECH_ADD.items():
     TECH[k] += "; " + v
 for k, v in TEXT_ADD.items():
@@ -323,6 +336,10 @@ for k, v in TEXT_ADD9.items():
 for k, v in TECH_ADD10.items():
     TECH[k] += "; " + v
 for k, v in TEXT_ADD10.items():
+    TEXT[k] += v
+for k, v in TECH_ADD11.items():
+    TECH[k] += "; " + v
+for k, v in TEXT_ADD11.items():
     TEXT[k] += v
 NOTE = "Assumes P0 (non-nil receivers/arguments), P1 (non-nil model elements, map keys = IDs), library contracts in internal/chk/contracts.go, and the fidelity of go/ssa + VTA (x/tools v0.29.0). Audited residue entries in rules/residue.txt are trusted."
 props = [json.loads(l) for l in open("/verif/properties.jsonl")]
